@@ -1,0 +1,107 @@
+//go:build verif
+
+package referenceserver
+
+// Contracts for the deductive verifier in /verif (comment-only file; no code).
+//
+// fbCount[p] counts the feedback lines written through feedback printer p.
+
+//@ ghost fbCount: *feedbackPrinter -> int
+
+//@ func (*feedbackPrinter).Printf
+//@   requires p != nil && p.p != nil
+//@   modifies fbCount
+//@   assume_ensures fbCount == old(fbCount)[p := old(fbCount)[p] + 1] //# ghost bookkeeping: one feedback line per call
+
+//@ spec wfFeedback(f *feedbackPrinter) bool = f != nil && f.p != nil
+
+//@ func getHeader
+//@   requires wfFeedback(feedback)
+//@   modifies fbCount
+//@   ensures result_1 == (has(headers, canonKey(headerName)) && len(headers[canonKey(headerName)]) > 0)
+//@   ensures result_0 == ((has(headers, canonKey(headerName)) && len(headers[canonKey(headerName)]) > 0) ? headers[canonKey(headerName)][0] : "")
+//@   ensures (fbCount[feedback] == old(fbCount[feedback])) == !(has(headers, canonKey(headerName)) && len(headers[canonKey(headerName)]) > 1)
+//@   ensures fbCount[feedback] >= old(fbCount[feedback])
+
+//@ func getQueryParam
+//@   requires wfFeedback(feedback)
+//@   modifies fbCount
+//@   ensures result_1 == (has(values, paramName) && len(values[paramName]) > 0)
+//@   ensures result_0 == ((has(values, paramName) && len(values[paramName]) > 0) ? values[paramName][0] : "")
+//@   ensures (fbCount[feedback] == old(fbCount[feedback])) == !(has(values, paramName) && len(values[paramName]) > 1)
+//@   ensures fbCount[feedback] >= old(fbCount[feedback])
+
+// No feedback exactly when the expected HTTP version is a known one and equals the request's.
+//@ func checkHTTPVersion
+//@   requires wfFeedback(feedback) && req != nil
+//@   modifies fbCount
+//@   ensures (fbCount[feedback] == old(fbCount[feedback])) ==
+//@      ((expected == 1 && req.ProtoMajor == 1) || (expected == 2 && req.ProtoMajor == 2) || (expected == 3 && req.ProtoMajor == 3))
+
+// First value of header k ("" if absent) and whether it is present / repeated.
+//@ spec hdrHas(h http.Header, k string) bool = has(h, canonKey(k)) && len(h[canonKey(k)]) > 0
+//@ spec hdrDup(h http.Header, k string) bool = has(h, canonKey(k)) && len(h[canonKey(k)]) > 1
+//@ spec hdrVal(h http.Header, k string) string = hdrHas(h, k) ? h[canonKey(k)][0] : ""
+//@ spec qHas(q url.Values, k string) bool = has(q, k) && len(q[k]) > 0
+//@ spec qDup(q url.Values, k string) bool = has(q, k) && len(q[k]) > 1
+//@ spec qVal(q url.Values, k string) string = qHas(q, k) ? q[k][0] : ""
+
+// Protocol spoken by a request, from its content type (and method): the three
+// protocols' content types as given in their specifications; 0 = undeterminable.
+//@ spec isGrpcCT(ct string) bool = ct == "application/grpc" || hasPrefix(ct, "application/grpc+")
+//@ spec isGrpcWebCT(ct string) bool = ct == "application/grpc-web" || hasPrefix(ct, "application/grpc-web+")
+//@ spec specProtocol(ct string, method string) int =
+//@    isGrpcCT(ct) ? 2 : (isGrpcWebCT(ct) ? 3 : ((hasPrefix(ct, "application/") || method == "GET") ? 1 : 0))
+
+// No feedback exactly when the protocol can be determined, equals the expected one
+// and - for gRPC - the request announces "te: trailers".
+//@ func checkProtocol
+//@   requires wfFeedback(feedback) && req != nil
+//@   modifies fbCount
+//@   ensures (fbCount[feedback] == old(fbCount[feedback])) ==
+//@      (specProtocol(hdrVal(req.Header, "Content-Type"), req.Method) != 0 &&
+//@       expected == specProtocol(hdrVal(req.Header, "Content-Type"), req.Method) &&
+//@       !(expected == 2 && hdrVal(req.Header, "Te") != "trailers"))
+
+// Name of the expected compression; "" for an unknown enum value.
+//@ spec specCompName(c int) string =
+//@    c == 1 ? "identity" : (c == 2 ? "gzip" : (c == 3 ? "br" : (c == 4 ? "zstd" : (c == 5 ? "deflate" : (c == 6 ? "snappy" : "")))))
+// Header that carries the request compression for a content type ("" = unknown content type).
+//@ spec specEncHeader(ct string) string =
+//@    (isGrpcCT(ct) || isGrpcWebCT(ct)) ? "Grpc-Encoding" :
+//@    (hasPrefix(ct, "application/connect+") ? "Connect-Content-Encoding" : (hasPrefix(ct, "application/") ? "Content-Encoding" : ""))
+
+// No feedback exactly when the expected compression is a known one, the place where the
+// request states its compression is known and not repeated, and the stated compression
+// (identity when absent) is the expected one.
+//@ func checkCompression
+//@   requires wfFeedback(feedback) && req != nil && req.URL != nil
+//@   modifies fbCount
+//@   ensures @get req.Method == "GET" ==> (fbCount[feedback] == old(fbCount[feedback])) ==
+//@      (1 <= expected && expected <= 6 && !qDup(queryVals(req.URL), "compression") &&
+//@       specCompName(expected) == (qHas(queryVals(req.URL), "compression") ? qVal(queryVals(req.URL), "compression") : "identity"))
+//@   ensures @post req.Method != "GET" && specEncHeader(hdrVal(req.Header, "Content-Type")) != "" ==> (fbCount[feedback] == old(fbCount[feedback])) ==
+//@      (1 <= expected && expected <= 6 && !hdrDup(req.Header, specEncHeader(hdrVal(req.Header, "Content-Type"))) &&
+//@       specCompName(expected) == (hdrHas(req.Header, specEncHeader(hdrVal(req.Header, "Content-Type"))) ? hdrVal(req.Header, specEncHeader(hdrVal(req.Header, "Content-Type"))) : "identity"))
+//@   ensures @unknownct req.Method != "GET" && specEncHeader(hdrVal(req.Header, "Content-Type")) == "" ==>
+//@      (fbCount[feedback] == old(fbCount[feedback])) == (1 <= expected && expected <= 6)
+
+// Timeout header grammar of the two protocol specifications:
+//   Connect-Timeout-Ms: 1 to 10 ASCII digits;   Grpc-Timeout: 1 to 8 ASCII digits and a unit out of HMSmun.
+//@ spec specConnectTimeoutOK(v string) bool = isDigits(v, 0) && len(v) <= 10
+//@ spec isTimeoutUnit(c int) bool = c == 'H' || c == 'M' || c == 'S' || c == 'm' || c == 'u' || c == 'n'
+//@ spec specGrpcTimeoutOK(v string) bool = len(v) >= 2 && len(v) <= 9 && isDigits(v[:len(v)-1], 0) && isTimeoutUnit(v[len(v)-1])
+
+// A timeout header is accepted exactly when it follows the protocol's grammar, is
+// converted to the exact duration, and is removed from the headers whenever present.
+//@ func extractTimeout
+//@   requires wfFeedback(feedback) && headers != nil
+//@   modifies fbCount, map[string][]string @ headers
+//@   ensures @connect-grammar protocol == 1 ==> result_1 == (old(hdrHas(headers, "Connect-Timeout-Ms")) && specConnectTimeoutOK(old(hdrVal(headers, "Connect-Timeout-Ms"))))
+//@   ensures @connect-removed protocol == 1 && old(hdrHas(headers, "Connect-Timeout-Ms")) ==> !has(headers, canonKey("Connect-Timeout-Ms"))
+//@   ensures @connect-exact protocol == 1 && result_1 && specConnectTimeoutOK(old(hdrVal(headers, "Connect-Timeout-Ms"))) ==>
+//@       result_0 == decVal(old(hdrVal(headers, "Connect-Timeout-Ms")), len(old(hdrVal(headers, "Connect-Timeout-Ms")))) * 1000000
+//@   ensures @grpc-grammar (protocol == 2 || protocol == 3) ==> result_1 == (old(hdrHas(headers, "Grpc-Timeout")) && specGrpcTimeoutOK(old(hdrVal(headers, "Grpc-Timeout"))))
+//@   ensures @grpc-removed (protocol == 2 || protocol == 3) && old(hdrHas(headers, "Grpc-Timeout")) ==> !has(headers, canonKey("Grpc-Timeout"))
+//@   ensures @other protocol != 1 && protocol != 2 && protocol != 3 ==> !result_1
+
